@@ -208,6 +208,36 @@ pub fn hostile(out: &mut impl Write, rng: &mut Rng, root: &str, thorough: bool) 
 
 /// C15: the `core` corpus generated concurrently by N threads must equal the sequential run, and
 /// concurrent queries on shared zones must equal the sequential answers.
+/// C15 ambient probe: public entry points that use the DEFAULT settings (real file system), each preceded by a marker
+/// the tracer can see (an `open` of a path that does not exist)
+#[cfg(feature = "std")]
+pub fn ambient(out: &mut impl Write) {
+    let mark = |name: &str| {
+        let _ = std::fs::metadata(format!("/VERIF-MARK/{}", name));
+    };
+    let names = ["UTC", "Europe/Paris", "Demo/Zone", "HST10", "EST5EDT,M3.2.0,M11.1.0", ":Nope/Zone", ":UTC", "localtime", "<+03>-3", " UTC0 ", "right/UTC", "x"];
+    for n in names {
+        mark(&format!("from_posix_tz {}", n.replace(' ', "_")));
+        let r = match tz::TimeZone::from_posix_tz(n) {
+            Ok(_) => "ok".to_string(),
+            Err(_) => "err".to_string(),
+        };
+        writeln!(out, "# ambient from_posix_tz {:?} {}", n, r).unwrap();
+    }
+    mark("local");
+    let _ = tz::TimeZone::local();
+    mark("now");
+    let _ = tz::UtcDateTime::now();
+    if let Ok(z) = tz::TimeZone::from_posix_tz("EST5EDT,M3.2.0,M11.1.0") {
+        let _ = tz::DateTime::now(z.as_ref());
+    }
+    mark("settings");
+    for d in tz::TimeZoneSettings::DEFAULT_DIRECTORIES {
+        writeln!(out, "# ambient default-directory {}", d).unwrap();
+    }
+    mark("end");
+}
+
 pub fn threads(out: &mut impl Write, seed: u64, thorough: bool) {
     let n_threads = 16;
     let gen = move || -> Vec<u8> {
@@ -220,6 +250,9 @@ pub fn threads(out: &mut impl Write, seed: u64, thorough: bool) {
         zones::zone_lookups(&mut buf, &mut rng, false, false);
         zones::find_family(&mut buf, &mut rng, thorough, true);
         crate::parse::tzif_generated(&mut buf, &mut rng, false);
+        // name resolution through private settings values and a thread-private virtual file system: the same name
+        // present in several directories with different contents
+        crate::parse::resolve(&mut buf, &mut rng, false);
         buf
     };
     let alone = gen();
